@@ -268,6 +268,14 @@ def history_level(oc, pid, cases):
                 nxt = r['model']['ro']
             else:
                 nxt = state[hid]
+            merr = r.get('model', {}).get('err')
+            if merr and not merr.startswith('Mos') and merr != c['impl']['err']:
+                # the model ends this step in a built-in exception the library did not raise: the input is outside
+                # what the model can say (a documented modelling limit, counted); nothing is judged from a state
+                # the model cannot reach - the run continues from the library's own state
+                oc.count('history-level-outside-model')
+                state[hid] = c['impl']['ro']
+                continue
             if drifted and 'props' in r and RELEVANT[pid](c['cls']):
                 oc.count('history-level-judgements')
                 for key in keys:
@@ -396,6 +404,8 @@ def collection_route(oc, triples, limit=400):
     from mosromgr.moscollection import MosCollection
     step = max(1, len(triples) // limit)
     for c, (ro_text, msg_text0), o in triples[::step]:
+        # a carriage return reaches a parser only as a character reference (a raw one is normalised to a line feed)
+        ro_text, msg_text0 = ro_text.replace('\r', '&#13;'), msg_text0.replace('\r', '&#13;')
         for strict in (False, True, 'tied'):
             msg_text = msg_text0
             if strict == 'tied':
